@@ -22,6 +22,7 @@ type RSchema struct {
 	pattern       string
 	compileOnce   sync.ErrOnce
 	generatorOnce sync.ErrOnceWithValue[*reggen.Generator]
+	exampleOnce   sync.ErrOnceWithValue[[]byte]
 	generatorSeed int64
 
 	// generatorMx guards the generator: its random source is not safe for
@@ -79,7 +80,13 @@ func (s *RSchema) Example() ([]byte, error) {
 		return nil, err
 	}
 
-	return s.generateExample()
+	// The example is generated once: every call (and every registration of
+	// this schema as a user type) has to see the same one.
+	ex, err := s.exampleOnce.Do(s.generateExample)
+	if err != nil {
+		return nil, err
+	}
+	return append([]byte(nil), ex...), nil
 }
 
 func (s *RSchema) generateExample() ([]byte, error) {
